@@ -46,7 +46,7 @@ def probe(N, delta, r0, L0, l0, sh=False):
 
 def spectrum(fx, fy, r0, L0, l0):
     f2 = fx * fx + fy * fy
-    fm = 5.92 / l0 / (2 * math.pi)
+    fm = 5.92 / l0 / (2 * math.pi) if l0 else math.inf          # no inner scale: exp(-(f/fm)^2) = 1
     with np.errstate(all="ignore"):
         return 0.023 * r0 ** (-5.0 / 3) * np.exp(-f2 / fm ** 2) * (f2 + (0.0 if math.isinf(L0) else L0 ** -2.0)) ** (-11.0 / 6)
 
@@ -103,7 +103,7 @@ def cfgs(draw, nmax=24):
     if draw(st.integers(0, 5)) == 0:
         L0 = draw(st.sampled_from([float("inf"), 1e6, 1e9]))          # Kolmogorov-like outer scales are valid inputs
     return {"N": N, "delta": delta, "r0": draw(gen.logfloat(0.05, 1.0)), "L0": L0,
-            "l0": draw(st.one_of(gen.logfloat(1e-4, 0.1), st.just(2 * delta), st.just(delta))), "k": draw(gen.logfloat(0.3, 3.0)), "seed": draw(st.integers(0, 2**31))}
+            "l0": draw(st.one_of(gen.logfloat(1e-4, 0.1), st.just(2 * delta), st.just(delta), st.sampled_from([0, 0.0]))), "k": draw(gen.logfloat(0.3, 3.0)), "seed": draw(st.integers(0, 2**31))}
 
 
 def hi_body(ctx, p):
